@@ -19,7 +19,7 @@ from core.ctx import VERIF
 from props import _c30_impl as I
 
 ID = "C30"
-LEAN_MODULES = ["NiftyVerif.Core.Proto", "NiftyVerif.Model.Priors", "NiftyVerif.Props.C30"]
+LEAN_MODULES = ["NiftyVerif.Core.Proto", "NiftyVerif.Model.Priors", "NiftyVerif.Props.C30"]   # the driver imports the first two
 DRIVER = "Driver/C30.lean"
 OBLIGATIONS = ["NiftyVerif.C30." + t for t in (
     "strictMono_normal", "quantile_normal", "cdf_normal", "inverse_roundtrip_normal",
@@ -31,7 +31,9 @@ OBLIGATIONS = ["NiftyVerif.C30." + t for t in (
     "inverse_roundtrip_laplace", "laplace_jacobian",
     "invgamma_mode_mean_spec", "invgamma_mode_mean_rejects", "gamma_mean_var_spec",
     "interp_monotone", "interp_strictMono", "interp_nodes", "interp_between", "interp_range",
-    "invgamma_monotone_and_step_error", "inverse_roundtrip_interp", "inverse_roundtrip_invgamma")]
+    "invgamma_monotone_and_step_error", "inverse_roundtrip_interp", "inverse_roundtrip_invgamma",
+    "interpolator_grid_covers", "invgamma_exact_at_nodes", "strictMono_tabulated_cl", "quantile_tabulated_cl",
+    "invgamma_cl_jacobian")]
 RULE = ("case = (family, parameters, implementations, sorted standard-normal points x = Phi^-1(p) with p in [1e-12, 1-1e-12], "
         "log-uniform in min(p,1-p), both tails); parameters log-uniform over the documented ranges; non-trivial = points in "
         "both tails and non-default parameters; distinct by canonical JSON of the case. Separate streams: exact dyadic tables "
@@ -106,11 +108,11 @@ def gen_case(rng, fam, npts, k=None):
     step = rng.choice([0.01, 0.01, 0.02, 1 / 64, 0.05])
     if fam == "normal":
         par = dict(mean=rng.choice([0.0, 1.0, -1.0]) * _lu(rng, 1e-2, 1e2), std=_lu(rng, 1e-3, 1e3))
-        impls = ["re.func", "re.prior", "cl.vector", "cl.scalar"]
+        impls = ["re.func", "re.prior", "re.jit", "re.array", "cl.vector", "cl.vecpar", "cl.scalar"]
     elif fam == "lognormal":
         m = _lu(rng, 1e-2, 1e2)
         par = dict(mean=m, std=m * _lu(rng, 1e-2, 10))
-        impls = ["re.func", "re.prior", "cl.vector", "cl.scalar"]
+        impls = ["re.func", "re.prior", "re.jit", "re.array", "cl.vector", "cl.vecpar", "cl.scalar"]
     elif fam == "uniform":
         if k % 4 == 3:
             par = dict(a=0.0, b=1.0, default=True)
@@ -118,11 +120,11 @@ def gen_case(rng, fam, npts, k=None):
         else:
             a = rng.choice([0.0, 1.0, -1.0]) * _lu(rng, 1e-2, 10)
             par = dict(a=a, b=a + _lu(rng, 1e-3, 1e3))
-            impls = ["re.func", "re.prior", "cl.op"]
+            impls = ["re.func", "re.prior", "re.jit", "re.array", "cl.op"]
     elif fam == "laplace":
         if k % 2 == 0:
             par = dict(loc=0.0, scale=_lu(rng, 1e-2, 1e2))
-            impls = ["re.func", "re.prior", "cl.op"]
+            impls = ["re.func", "re.prior", "re.jit", "re.array", "cl.op"]
         else:
             par = dict(loc=rng.choice([1.0, -1.0]) * _lu(rng, 1e-2, 10), scale=_lu(rng, 1e-2, 1e2))
             impls = ["cl.op"]
@@ -139,7 +141,7 @@ def gen_case(rng, fam, npts, k=None):
             impls = ["re.func", "re.prior"]
         else:
             par = dict(a=_lu(rng, 0.3, 50), scale=_lu(rng, 1e-2, 1e2), step=step)
-            impls = ["re.func", "re.prior", "cl.op", "cl.field"]
+            impls = ["re.func", "re.prior", "re.jit", "re.array", "cl.op", "cl.field"]
     elif fam == "loginvgamma":
         par = dict(a=_lu(rng, 0.3, 50), scale=_lu(rng, 1e-2, 1e2), step=step)
         impls = ["cl.op", "cl.field"]
@@ -881,21 +883,21 @@ def run(ctx):
     for c in corpus_cases():
         ctx.stat("corpus")
         cases.append(c)
-    per_fam = ctx.n(4, 30)
+    per_fam = ctx.n(4, 64)
     npts = ctx.n(14, 40)
     ship = 0
     for fam in FAMS:
         for k in range(per_fam):
             c = gen_case(ctx.rng, fam, npts, k)
-            if fam == "invgamma" and "re.func" in c["impls"] and ship < ctx.n(3, 10):
+            if fam == "invgamma" and "re.func" in c["impls"] and ship < ctx.n(3, 16):
                 c["ship_table"] = True
                 ship += 1
             cases.append(c)
-    for k in range(ctx.n(8, 60)):
+    for k in range(ctx.n(8, 300)):
         m = _lu(ctx.rng, 1e-3, 1e3)
         cases.append(dict(op="moments", mean=m, std=m * _lu(ctx.rng, 1e-3, 1e2)))
     cases += [dict(op="moments", mean=-1.0, std=1.0), dict(op="moments", mean=1.0, std=0.0), dict(op="moments", mean=0.0, std=-2.0)]
-    for k in range(ctx.n(12, 80)):
+    for k in range(ctx.n(12, 200)):
         cases.append(gen_interp_case(ctx.rng, k))
     for mcase in MALFORMED:
         cases.append(dict(op="malformed", **mcase))
@@ -916,6 +918,7 @@ def run(ctx):
             if c["par"].get("loc"):
                 ctx.stat("branch:loc!=0")
             ev = evaluate(c)
+            ctx.stat("transform-evaluations(points x implementations)", sum(len(r["x"]) for r in ev.values() if not I.is_err(r)))
             _register(ctx, c, judge(c, ev))
             corr_transform(co, c, ev)
         elif op == "moments":
